@@ -327,17 +327,11 @@ def _build_from_meas(q, case, meas):
 
 
 def model_line(case):
-    # a failed side computation is not an operation of the session state machine; a relative
-    # uncertainty r is the uncertainty |current central value| * r
+    # a failed side computation is not an operation of the session state machine
     ops = []
-    cur = [unbits(b) for b in case["vals"]]
     for o in case["ops_hist"]:
         if o[0] in ("fault", "newGroup"):
             o = ["readDeriv", quantity_nodes(case)[0], 0]
-        elif o[0] == "setValue":
-            cur[o[1]] = unbits(o[2])
-        elif o[0] == "setRel":
-            o = ["setError", o[1], bits(abs(cur[o[1]]) * float(unbits(o[2])))]
         ops.append(o)
     return {"cmd": "world", "nodes": exprgen.model_nodes(case["nodes"]), "vals": case["vals"],
             "errs": case["errs"], "rho": case["rho"], "ops": ops}
